@@ -31,6 +31,16 @@ FIXED_BASES = [
                                                     {"type": "object", "properties": {"q": {"type": "integer"}}, "required": ["q"]}]}}},
     {"type": "object", "$defs": {"A": {"type": "object", "properties": {"s": {"type": "string"}}, "required": ["s"]}},
      "properties": {"w": {"allOf": [{"$ref": "#/$defs/A"}, {"type": "object", "properties": {"t": {"type": "boolean"}}}]}}},
+    # composites nested through inline object branches that share referenced branches (the generator visits the inner one more than once, with cycle bookkeeping)
+    {"type": "object", "$defs": {"Text": {"type": "object", "properties": {"text": {"type": "string"}}, "required": ["text"]},
+                                 "Image": {"type": "object", "properties": {"url": {"type": "string"}}, "required": ["url"]}},
+     "properties": {"block": {"anyOf": [{"$ref": "#/$defs/Text"}, {"$ref": "#/$defs/Image"},
+                                        {"type": "object", "properties": {"child": {"anyOf": [{"$ref": "#/$defs/Text"}, {"$ref": "#/$defs/Image"},
+                                                                                                {"type": "object", "properties": {"level": {"type": "integer"}, "note": {"type": "string"}}}]}}}]}}},
+    {"type": "object", "$defs": {"Node": {"type": "object", "properties": {"next": {"$ref": "#/$defs/Node"}, "v": {"type": "integer"}}},
+                                 "Leaf": {"type": "object", "properties": {"w": {"type": "string"}}, "required": ["w"]}},
+     "properties": {"tree": {"anyOf": [{"$ref": "#/$defs/Node"}, {"$ref": "#/$defs/Leaf"}, {"type": "object", "properties": {"deep": {"type": "object", "properties": {"x": {"type": "number"}}}}}]},
+                    "both": {"allOf": [{"$ref": "#/$defs/Leaf"}, {"type": "object", "properties": {"inner": {"allOf": [{"$ref": "#/$defs/Leaf"}, {"type": "object", "properties": {"y": {"type": "boolean"}}}]}}}]}}},
     {"type": "object", "properties": {"m": {"type": "object", "additionalProperties": {"type": "string"}}, "o": {"type": "object", "properties": {"k": {"type": "integer"}},
                                                                                                               "additionalProperties": {"type": "string"}}}},
 ]
